@@ -1,7 +1,6 @@
 (* Proofs/WorkerOracle: the executable oracle chart_ok (what the runner
    evaluates on the implementation's chart object) is equivalent to the
-   specification; compareSemver's tie-break makes a strict total order;
-   goMajorMinor does not panic on goN.M... strings. *)
+   specification; compareSemver's tie-break makes a strict total order. *)
 From Coq Require Import List NArith ZArith Bool Permutation Sorted Lia.
 From Tele Require Import Lib.Bytes Lib.Calendar Lib.Sort Gen.Consts Model.Worker
   Proofs.WorkerFacts Proofs.WorkerSpec Proofs.WorkerChart.
@@ -229,40 +228,3 @@ Section Semver.
   Qed.
 End Semver.
 
-(* ------------------------------------------------------------------ *)
-(* goMajorMinor does not panic on "go" N "." anything (N a decimal number
-   without leading zero), i.e. on every released Go version string *)
-
-Lemma count_digits_app ds rest :
-  forallb is_digit ds = true -> (match rest with c :: _ => is_digit c = false | [] => True end) ->
-  count_digits (ds ++ rest) = length ds.
-Proof.
-  induction ds as [|c ds IH]; intros Hd Hr; cbn [app count_digits length].
-  - destruct rest as [|c rest]; [reflexivity|]. cbn [count_digits]. rewrite Hr. reflexivity.
-  - cbn [forallb] in Hd. apply andb_true_iff in Hd as [Hc Hd]. rewrite Hc, IH by assumption. reflexivity.
-Qed.
-
-Theorem go_major_minor_no_panic p maj c rest :
-  length p = 2%nat -> maj <> [] -> forallb is_digit maj = true ->
-  (nth 0 maj 0%N <> 48%N \/ length maj = 1%nat) -> is_digit c = false ->
-  go_major_minor (p ++ maj ++ c :: rest) <> None.
-Proof.
-  intros Hp Hne Hd Hz Hc. unfold go_major_minor.
-  rewrite app_length, Hp. cbn [Nat.ltb Nat.leb plus].
-  assert (Hskip : skipn 2 (p ++ maj ++ c :: rest) = maj ++ c :: rest).
-  { destruct p as [|a [|b [|? ?]]]; try discriminate. reflexivity. }
-  rewrite Hskip. unfold cut_int.
-  rewrite (count_digits_app maj (c :: rest) Hd Hc).
-  assert (Hlen : Nat.eqb (length maj) 0 = false) by (destruct maj; [contradiction | reflexivity]).
-  rewrite Hlen. cbn [orb].
-  assert (Hlead : (N.eqb (nth 0 (maj ++ c :: rest) 0%N) 48 && negb (Nat.eqb (length maj) 1)) = false).
-  { destruct maj as [|m0 ms]; [contradiction|]. cbn [app nth].
-    destruct Hz as [Hz|Hz].
-    - cbn [nth] in Hz. apply N.eqb_neq in Hz. rewrite Hz. reflexivity.
-    - rewrite Hz. cbn. apply andb_false_r. }
-  rewrite Hlead.
-  assert (Hsk : skipn (length maj) (maj ++ c :: rest) = c :: rest).
-  { clear. induction maj as [|? ? IH]; [reflexivity | exact IH]. }
-  rewrite Hsk.
-  destruct (Nat.eqb (count_digits rest) 0 || (N.eqb (nth 0 rest 0%N) 48 && negb (Nat.eqb (count_digits rest) 1))); discriminate.
-Qed.
